@@ -15,17 +15,34 @@ MANDATORY = {"Source": ["vo"], "PLoad": ["pwr"], "ILoad": ["ii"], "RLoad": ["rs"
              "Converter": ["vo", "eff"], "LinReg": ["vo"], "PSwitch": [], "PMux": [], "RectD": ["vdrop"], "RectM": ["vdrop"]}
 
 
-def _load(ctx, kind, config):
+GOOD = {"Source": dict(vo=5.0, rs=0.1), "PLoad": dict(pwr=1.0, pwrs=0.1, rt=1.0, loss=False), "ILoad": dict(ii=0.1, iis=0.01, rt=1.0, loss=True),
+        "RLoad": dict(rs=10.0, rt=1.0, loss=False), "RLoss": dict(rs=1.0, rt=2.0), "VLoss": dict(vdrop=0.3, rt=1.0),
+        "Converter": dict(vo=3.3, eff=0.9, iq=0.001, iis=0.0001, rt=5.0), "LinReg": dict(vo=3.3, vdrop=0.2, ig=0.001, iis=0.0001, rt=5.0),
+        "PSwitch": dict(rs=0.1, ig=0.001, iis=0.0001, rt=5.0), "PMux": dict(rs=[0.1, 0.2], ig=0.001, iis=0.0001, rt=5.0),
+        "RectD": dict(vdrop=0.4, rs=0.0, ig=0.0, iq=0.0, rt=1.0), "RectM": dict(vdrop=0.0, rs=0.05, ig=0.001, iq=0.0, rt=1.0)}
+
+
+def _load(ctx, kind, config, decoy=False):
+    """from_file on a file holding ``config``.  ``decoy``: the same path held OTHER parameters a moment ago and was loaded then
+    (the component must be built from what the file holds now)."""
     cls = cls_of(kind)
     if ctx.symbolic:
         with memory_files(ctx):
+            if decoy:
+                envstubs.FILES["mem://c.toml"] = {SECTION[kind]: dict(GOOD[kind])}
+                cls.from_file("X", fname="mem://c.toml")
             envstubs.FILES["mem://c.toml"] = config
             return cls.from_file("X", fname="mem://c.toml")
     import toml
 
     tmp = tempfile.NamedTemporaryFile(suffix=".toml", delete=False, mode="w")
     try:
-        toml.dump(config, tmp)
+        if decoy:
+            with open(tmp.name, "w") as f:
+                toml.dump({SECTION[kind]: dict(GOOD[kind])}, f)
+            cls.from_file("X", fname=tmp.name)
+        with open(tmp.name, "w") as f:
+            toml.dump(config, f)
         tmp.close()
         return cls.from_file("X", fname=tmp.name)
     finally:
@@ -40,7 +57,7 @@ def _clone(x):
     return envstubs._clone(x)
 
 
-def e_toml(ctx, kind, present, form="const", with_limits=True, loss=None, iq=False):
+def e_toml(ctx, kind, present, form="const", with_limits=True, loss=None, iq=False, decoy=False):
     """Optional keys in ``present`` are written to the file, the others are absent (constructor defaults).
     ``iq``: LinReg only - the deprecated scalar ground-current key is present as well (any value, also 0)."""
     optional = [k for k in PARAMS[kind] if k not in MANDATORY[kind]]
@@ -61,7 +78,7 @@ def e_toml(ctx, kind, present, form="const", with_limits=True, loss=None, iq=Fal
     if lim is not None:
         config["limits"] = _clone(lim)
     try:
-        a = _load(ctx, kind, config)
+        a = _load(ctx, kind, config, decoy=decoy)
     except Exception as e:  # noqa: BLE001
         ctx.fail("loads-whatever-the-constructor-accepts", info={"exception": repr(e)[:200], "kind": kind})
         return
@@ -90,11 +107,7 @@ def e_reject(ctx):
         cls = cls_of(kind)
         if kind in ("RectM",):
             continue
-        good = {"Source": dict(vo=5.0, rs=0.1), "PLoad": dict(pwr=1.0, pwrs=0.1, rt=1.0, loss=False), "ILoad": dict(ii=0.1, iis=0.01, rt=1.0, loss=True),
-                "RLoad": dict(rs=10.0, rt=1.0, loss=False), "RLoss": dict(rs=1.0, rt=2.0), "VLoss": dict(vdrop=0.3, rt=1.0),
-                "Converter": dict(vo=3.3, eff=0.9, iq=0.001, iis=0.0001, rt=5.0), "LinReg": dict(vo=3.3, vdrop=0.2, ig=0.001, iis=0.0001, rt=5.0),
-                "PSwitch": dict(rs=0.1, ig=0.001, iis=0.0001, rt=5.0), "PMux": dict(rs=[0.1, 0.2], ig=0.001, iis=0.0001, rt=5.0),
-                "RectD": dict(vdrop=0.4, rs=0.0, ig=0.0, iq=0.0, rt=1.0)}[kind]
+        good = GOOD[kind]
         for k in MANDATORY[kind]:
             cfg = {SECTION[kind]: {kk: vv for kk, vv in good.items() if kk != k}}
             try:
@@ -178,6 +191,10 @@ def instances(tier):
                 out.append(Instance("C13", "c13:e_toml", dict(kind=kind, present=list(optional), form=form), cover=["loaded"], weight=5))
         if kind == "PMux":
             out.append(Instance("C13", "c13:e_toml", dict(kind=kind, present=list(optional) + ["rslist"], form="const"), cover=["loaded"]))
+        # the path was loaded before with other content (one instance per kind; all optional keys present)
+        out.append(Instance("C13", "c13:e_toml", dict(kind=kind, present=list(optional), form="const", decoy=True,
+                                                      loss=True if kind in spec.LOADS else None),
+                            cover=["loaded"], name="toml/%s/path-reused-with-new-content" % kind))
         if kind == "LinReg":  # the deprecated key next to / instead of the new one
             for sub, form in ((list(optional), "const"), ([k for k in optional if k != "ig"], "const"), (list(optional), "t1x2")):
                 out.append(Instance("C13", "c13:e_toml", dict(kind=kind, present=sub, form=form, iq=True), cover=["loaded"],
